@@ -15,7 +15,9 @@ SPEC = dict(
          "OBJ / VTP / ascii+binary STL files (closed triangle meshes and open quad strips) written under /tmp/agent-C36 "
          "and read back by PolygonalMesh::loadFile; mode 'degenerate': coplanar / collinear / cospherical / coincident "
          "clouds, obtuse and collinear triples, box meshes queried at centre / vertex / face points, region-6 witness, "
-         "fixed syntax variants of OBJ / VTP / ascii STL files; half of the meshes use smooth=true; "
+         "fixed syntax variants of OBJ / VTP / ascii STL files, sliver meshes and thin tetrahedra, and once per run a directed "
+         "per-face stream (13 triangle shapes incl. obtuse / sliver / right / needle at each vertex position x 7 plane regions "
+         "x near/far x 4 heights, with a coverage floor); half of the meshes use smooth=true; "
          "distinct = distinct input records",
     partial="(i) PROVED about the executed model: the branch-and-bound descent over the exported real tree returns the "
             "triDist2-minimal face (mesh_nearest_eq_bruteforce) and the face with the smallest ray parameter "
